@@ -5,7 +5,8 @@
    A schedule is any list of worker ids: each entry gives that worker one turn (one atomic action, or
    nothing when it is blocked on the lock or has returned).  All theorems are for EVERY schedule. *)
 From Coq Require Import ZArith List Lia Bool Arith Permutation.
-From PR Require Import Model.Sched Proofs.C15_inv Proofs.C15_term Proofs.C15_array Proofs.C15_hist.
+From PR Require Import Base.Slice Model.Partition Model.Sched Model.SchedGen Model.C15_run Gen.GenC15
+     Proofs.C15_inv Proofs.C15_term Proofs.C15_array Proofs.C15_hist Proofs.C15_gen Proofs.C15_compose.
 Import ListNotations.
 Open Scope Z_scope.
 
@@ -184,6 +185,68 @@ Proof.
   - vm_compute. split; [reflexivity|]. split; [reflexivity|discriminate].
 Qed.
 Print Assumptions C15_reused_scheduler_refuted.
+
+(* ---- the code as written (Gen/GenC15.v is regenerated from pyresample/_multi_proc.py on every run) ---- *)
+(* Scheduler.__init__: for every kind and chunk argument the generated function stores ndata and 0 into 64-bit
+   counters and computes the model's chunk rule *)
+Theorem C15_init_as_written : forall c, bits c = 64 ->
+  gen_init c = (ndata (init c), start (init c), nprocs c, init_chunk c).
+Proof. exact gen_init_spec. Qed.
+Print Assumptions C15_init_as_written.
+Example C15_init_ex : gen_init_static_int 10 3 (-2) tt = (10, 0, 3, 3) /\ gen_init_guided_none 1000 4 tt tt = (1000, 0, 4, 25).
+Proof. vm_compute. split; reflexivity. Qed.
+
+(* Scheduler.__iter__: for every kind and every value of the shared counters, the trace of shared-memory actions of
+   one loop iteration of the generated function respects the lock discipline (acquire; only counter reads/writes;
+   release; then yield or return) and its net effect (new counters, slice yielded to worker w or return) is exactly
+   that of the model's critical section, i.e. of the [step]s of worker w from the top of the loop to the yield *)
+Theorem C15_iter_as_written : forall c s w, pcs s w = PIdle -> lock s = None ->
+  let '(nd', st', tr) := gen_iter c (ndata s) (start s) in
+  let s' := cs_steps 6 c s w in
+  ndata s' = nd' /\ start s' = st' /\ lock s' = None /\ wdone s' = wdone s /\
+  match cs_outcome tr with
+  | Some (Some (a, b)) => pcs s' w = PWork a b /\ out s' = out s ++ [(w, (a, b))]
+  | Some None => pcs s' w = PDone /\ out s' = out s
+  | None => False
+  end.
+Proof. exact gen_iter_spec. Qed.
+Print Assumptions C15_iter_as_written.
+Theorem C15_iter_lock_discipline : forall c nd st, cs_outcome (snd (gen_iter c nd st)) <> None.
+Proof. exact gen_iter_disciplined. Qed.
+Print Assumptions C15_iter_lock_discipline.
+Example C15_iter_ex :
+  gen_iter (mk_cfg 7 2 None Guided 64) 7 0 = (4, 3, [(2, 0); (3, 7); (4, 0); (5, 4); (6, 3); (7, 0); (10, 0); (11, 3)]) /\
+  gen_iter (mk_cfg 7 2 None Guided 64) 0 7 = (0, 7, [(2, 0); (3, 0); (4, 7); (7, 0); (12, 0)]).
+Proof. vm_compute. split; reflexivity. Qed.
+
+(* ---- writes of any granularity: any list of in-bounds writes (split, overlapping, repeated, in any order, e.g. one
+   element at a time) that covers [0, n) leaves the single-process array, because every write stores f of its rows *)
+Theorem C15_any_covering_writes_equal_map : forall (V : Type) (f : Z -> V) (d : V) n ws,
+  0 <= n -> Forall (in_bounds n) ws -> (forall i, 0 <= i < n -> covered ws i = true) ->
+  result_array f d n ws = single_process f n.
+Proof. intros V. exact (@writes_cover_equal V). Qed.
+Print Assumptions C15_any_covering_writes_equal_map.
+
+(* ---- composed with C19: kd_tree.get_neighbour_info(segments = k) runs one multi-process query per row segment of
+   geometry._get_slice (a fresh scheduler each, any interleaving each) and appends the results: together they are the
+   single-process result over all rows *)
+Theorem C15_segmented_calls_equal_single_query : forall (V : Type) (f : Z -> V) (d : V) segments size (calls : list (call V)),
+  0 <= size -> 1 <= segments -> Forall call_ok calls ->
+  Forall2 (call_for_segment f) calls (get_slice segments size) ->
+  concat (map (call_mp d) calls) = single_process f size.
+Proof. intros V. exact (@segmented_calls V). Qed.
+Print Assumptions C15_segmented_calls_equal_single_query.
+Example C15_segmented_ex :
+  let k1 : call Z := (mk_cfg 2 1 None Static 64, 1%nat, repeat 0%nat 11, fun i => 10 * i) in
+  let k2 : call Z := (mk_cfg 1 1 None Static 64, 1%nat, repeat 0%nat 11, fun i => 10 * (2 + i)) in
+  get_slice 2 3 = [mk_slice 0 2; mk_slice 2 3] /\
+  Forall2 (call_for_segment (fun i => 10 * i)) [k1; k2] (get_slice 2 3) /\
+  concat (map (call_mp (-1)) [k1; k2]) = [0; 10; 20].
+Proof.
+  cbn zeta. split; [reflexivity|]. split; [|vm_compute; reflexivity].
+  change (get_slice 2 3) with [mk_slice 0 2; mk_slice 2 3].
+  repeat constructor; cbn; intros; f_equal; lia.
+Qed.
 
 (* the guard n < 2^(bits-1) is needed: with 32-bit counters (ctypes.c_int) and n = 2^32 + 3 the single worker
    receives slice(0, 3) and returns; items 3 .. n-1 are never handed out *)
